@@ -7,7 +7,7 @@ UNITS = {
         # R17 (anyhow macros) and R19d (`for b in &mut <local array>`) are opt-in extraction rules
         # R21 (`print_model`): stdout is a ghost log threaded through the listed free functions
         "opts": {"anyhow": True, "array_iter_mut": ["hash_bytes"],
-                 "print_model": ["hash_one_input", "write_hex_output", "write_raw_output", "check_one_line"]},
+                 "print_model": ["hash_one_input", "write_hex_output", "write_raw_output", "check_one_line", "check_one_checkfile", "main"]},
         "rlimit": 30,
         "broadcast": False,   # prelude/core.rs (vf_lemmas) is not part of this unit
         "doc": "b3sum checkfile functions (hex_half_byte, check_for_invalid_characters, unescape, split_*_check_line, "
